@@ -26,6 +26,14 @@ Theorem clamp_spec : forall W Y M W1, wall_in_range W = true -> ym_shift W Y M =
 Proof. exact ym_shift_fields. Qed.
 Print Assumptions clamp_spec.
 
+(* the year/month step is arithmetic on the month index 12*year + (month-1) *)
+Theorem ym_add_is_month_arithmetic : forall y m a b, 1 <= m <= 12 ->
+  ym_add y m 0 = (y, m) /\
+  (let '(y1, m1) := ym_add y m a in ym_add y1 m1 b) = ym_add y m (a + b) /\
+  (let '(y1, m1) := ym_add y m a in 12 * y1 + (m1 - 1) = 12 * y + (m - 1) + a /\ 1 <= m1 <= 12).
+Proof. exact ym_add_arith. Qed.
+Print Assumptions ym_add_is_month_arithmetic.
+
 (* DateTime.add with any calendar unit on an aware value: the wall-clock target, normalised by create (C02) with fold 1, zone kept *)
 Theorem add_calendar_spec : forall z fx W f Y M Wk D h m s us, wall_in_range W = true -> any_cal Y M Wk D = true ->
   dt_add (Aware z fx) W f Y M Wk D h m s us =
